@@ -107,7 +107,7 @@ func dstGrid(r *workload.Rand, need int) [][]byte {
 // C16: inputs never modified; append semantics; scratch contents irrelevant; outputs own their memory.
 func RunC16(c *Ctx) {
 	var longBuf rjson.Buffer
-	var longVR rjson.ValueReader
+	var longVR, histVR rjson.ValueReader
 	deepBuf := deepDirtyBuffer()
 	otherDocs := [][]byte{[]byte(`{"zz":["overwrite","me",{"k":"\n\t"}],"y":"\u00e9"}`), []byte(`["a","b","c","d","e","f","g","h"]`), []byte(`{"a":{"a":{"a":"deep"}}}`)}
 	process := func(cs *h.Case) {
@@ -295,6 +295,20 @@ func RunC16(c *Ctx) {
 						}
 					}
 				}
+			}
+		})
+		// C'. the ValueReader's own scratch (field names, strings, spare containers) is a scratch buffer
+		// too: a reader used on every earlier input must return what a brand-new one returns
+		// (seeded changes C16r5-m1: field name copied into len instead of cap; C16r5-m2: a map left
+		// behind by a failed read)
+		c.Guarded(cs, "ValueReader.ReadValue (scratch left by earlier inputs)", func() {
+			v1, p1, e1 := histVR.ReadValue(d)
+			var fresh rjson.ValueReader
+			v2, p2, e2 := fresh.ReadValue(d)
+			c.Rec.Evals(2)
+			c.Rec.C("reader_scratch_independence_comparisons")
+			if (e1 == nil) != (e2 == nil) || p1 != p2 || (e1 == nil && !refmodel.EqTree(v1, v2)) {
+				c.Rec.Violate(cs, "a ValueReader used on earlier inputs returns something else than a brand-new one", "ValueReader.ReadValue", fmt.Sprintf("p=%d err=%s val=%s", p2, errStr(e2), show(v2)), fmt.Sprintf("p=%d err=%s val=%s", p1, errStr(e1), show(v1)))
 			}
 		})
 		// D. value trees own their memory
